@@ -22,6 +22,9 @@ PKGS = ["boa_engine", "boa_gc", "boa_ast", "boa_parser", "boa_string", "boa_inte
 CONFIGS = {
     "default": (PKGS, []),
     "enum": (["boa_engine"], ["--features", "boa_engine/jsvalue-enum"]),
+    # boa_engine with its own default features only (no annex-b / intl / experimental / trace): the code under the
+    # negative cfgs that the cli feature set hides
+    "engine": (["boa_engine", "boa_gc", "boa_ast", "boa_parser", "boa_string", "boa_interner"], []),
 }
 # fail-closed floors: bodies per crate (counted on the pinned tree: engine 15255,
 # gc 960, ast 4343, parser 1090, string 465)
@@ -29,6 +32,7 @@ FLOORS = {
     "default": {"boa_engine": 12000, "boa_gc": 800, "boa_ast": 3500, "boa_parser": 900,
                 "boa_string": 380, "boa_interner": 120, "boa_runtime": 600},
     "enum": {"boa_engine": 12000},
+    "engine": {"boa_engine": 9000, "boa_gc": 700, "boa_ast": 2200, "boa_parser": 800, "boa_string": 350},
 }
 
 
